@@ -28,6 +28,12 @@ Definition andl (l : list bool) : bool := forallb (fun b => b) l.
 Fixpoint all2 {A B} (f : A -> B -> bool) (a : list A) (b : list B) : bool :=
   match a, b with [] , [] => true | x :: a', y :: b' => f x y && all2 f a' b' | _, _ => false end.
 Definition ostr_eqb := option_eqb Zl_eqb.
+(* large byte strings (arrays of > 4096 bytes, files that hold them) are handed over in a LOSSLESS run-length form:
+   segments (pattern, number of repetitions); unrle gives the bytes back, every byte takes part in the comparisons *)
+Fixpoint rep_app (pat : list Z) (k : nat) (tl : list Z) : list Z :=
+  match k with O => tl | S k' => pat ++ rep_app pat k' tl end.
+Fixpoint unrle (segs : list (list Z * Z)) : list Z :=
+  match segs with [] => [] | (pat, k) :: t => rep_app pat (Z.to_nat k) (unrle t) end.
 (* result of a write: exception code (0 = none), the file that exists afterwards *)
 Definition file_ok (r : res (option str)) (code : Z) (obs : option str) : bool :=
   match r with Err e => exn_code e =? code | Ok o => (code =? 0) && ostr_eqb o obs end.
@@ -78,8 +84,48 @@ def sl(s):
     return '[' + ';'.join(str(b) for b in s) + ']'
 
 
+BIG = 4096
+
+
+def rle_segments(b, minrep=3, probe=16, window=8300):
+    """lossless run-length form of a byte string: [(pattern, repetitions)].  Periods are found by looking for the next
+    occurrence of the 16 bytes at the current position; what does not repeat at least three times stays literal."""
+    b = bytes(b)
+    segs, lit, i, n = [], bytearray(), 0, len(b)
+    while i < n:
+        j = b.find(b[i:i + probe], i + 1, i + window) if i + probe <= n else -1
+        k = 0
+        if j > 0:
+            p_ = j - i
+            pat, k = b[i:i + p_], 1
+            while b[i + k * p_:i + (k + 1) * p_] == pat:
+                k += 1
+        if k >= minrep:
+            if lit:
+                segs.append((bytes(lit), 1))
+                lit = bytearray()
+            segs.append((pat, k))
+            i += p_ * k
+        else:
+            lit.append(b[i])
+            i += 1
+    if lit:
+        segs.append((bytes(lit), 1))
+    assert b''.join(p_ * k for p_, k in segs) == b
+    return segs
+
+
+def bl(s):
+    """text / bytes -> Coq list of codes; large ones in run-length form (decoded inside Coq by unrle)"""
+    if isinstance(s, str):
+        s = s.encode()
+    if len(s) <= BIG:
+        return sl(s)
+    return '(unrle [' + '; '.join(f'({sl(p_)}, {k})' for p_, k in rle_segments(s)) + '])'
+
+
 def osl(b):
-    return 'None' if b is None else f'(Some {sl(b)})'
+    return 'None' if b is None else f'(Some {bl(b)})'
 
 
 def words_of(a):
@@ -90,6 +136,28 @@ def words_of(a):
 
 def wl(ws):
     return '[' + ';'.join('[' + ';'.join(map(str, w)) + ']' for w in ws) + ']'
+
+
+def wl_of(a):
+    """Coq list of the 4-byte float32 words of an array (large arrays: chunk4 of the run-length form of the bytes)"""
+    if a.size * 4 <= BIG:
+        return wl(words_of(a))
+    with warnings.catch_warnings():
+        warnings.simplefilter('ignore')
+        return f'(chunk4 {bl(np.ascontiguousarray(a).astype("<f4").tobytes())})'
+
+
+def expand_values(v):
+    """values of a vector spec: a list, or the compact form of the LARGE arrays dict(pattern=[..], n=N, marks=[[i, x]..]):
+    the pattern repeated up to N entries, then the marked entries replaced (keeps specs / replays small and lets the
+    run-length form hand ALL bytes of the array and of the file to Coq)"""
+    vals = v['values']
+    if isinstance(vals, dict):
+        a = np.resize(np.array(vals['pattern'], dtype=float), vals['n']).copy()
+        for i, x in vals.get('marks', []):
+            a[i] = x
+        return a
+    return vals
 
 
 def num(x):
@@ -109,7 +177,7 @@ def small_dyadic(x):
 def build_array(v):
     with warnings.catch_warnings():
         warnings.simplefilter('ignore')
-        a = np.array(v['values'], dtype=float).astype(v.get('dtype', 'f8')).reshape(v['shape'])
+        a = np.array(expand_values(v), dtype=float).astype(v.get('dtype', 'f8')).reshape(v['shape'])
     lay = v.get('layout', 'C')
     if lay == 'F' and a.ndim == 2:
         a = np.asfortranarray(a)
@@ -190,7 +258,7 @@ def listdir_rec(d):
 
 
 def vec_lit(name, a):
-    return f'({sl(name)}, {zl(list(a.shape))}, {wl(words_of(a))})'
+    return f'({sl(name)}, {zl(list(a.shape))}, {wl_of(a)})'
 
 
 def geom_strings(dom_unit, scale, origin):
@@ -251,6 +319,14 @@ def run_vti(ctx, pym, sc, spec, checks, labels, oracle_jobs):
             err = e
     files = listdir_rec(wd)
     code = exn_code(err)
+    if spec.get('oracle_only'):
+        # large arrays of unstructured values: no Coq literal; the file is read back by the oracle only
+        data = next(iter(files.values())) if len(files) == 1 else None
+        ctx.case(('vti-oracle-only', tuple(spec['domain']), tuple(tuple(a.shape) for _, a in arrays), code, spec.get('tag')), data is not None,
+                 sample=dict(kind='vti (oracle only)', domain=spec['domain'], shapes=[list(a.shape) for _, a in arrays], exception=code))
+        ctx.count('vti:oracle-only (large unstructured arrays)')
+        oracle_jobs.append(('vti', spec, dom, vectors, data, err, scale, origin, unit))
+        return
     g = f'(G {nx} {ny} {nz})'
     org_s, spc_s, org_v, spc_v = geom_strings(unit, scale, origin)
     # the dictionary the implementation saw (python dict semantics are part of the caller here)
@@ -272,7 +348,7 @@ def run_vti(ctx, pym, sc, spec, checks, labels, oracle_jobs):
         expect = expected_bytes(dom, vectors, parsed)
         obs = []
         for a_, ex in zip(parsed['arrays'], expect):
-            obs.append(f'({blit(a_["point"])}, {sl(a_["name"])}, {a_["ncomp"]}, {sl(a_["raw"])}, {sl(ex)})')
+            obs.append(f'({blit(a_["point"])}, {sl(a_["name"])}, {a_["ncomp"]}, {bl(a_["raw"])}, {bl(ex)})')
         parts['arrays'] = f'arrays_ok (vti_arrays g vs) 0 [{"; ".join(obs)}]'
         # geometry: numbers parsed from the header against origin*scale, element_size*scale
         po = [Fraction(float(t)) for t in parsed['iattr']['Origin'].split()]
@@ -301,6 +377,7 @@ def run_vti(ctx, pym, sc, spec, checks, labels, oracle_jobs):
     keys = list(parts)
     expr = f'(let g := {g} in let vs := {vs_lit} in andl [{"; ".join(parts[k] for k in keys)}])'
     label = dict(kind='vti', spec=spec, parts=keys, sub=[f'(let g := {g} in let vs := {vs_lit} in {parts[k]})' for k in keys])
+    label['cost'] = sum(a.size * 4 for a in vectors.values() if a.size * 4 > BIG)
     checks.append(expr)
     labels.append(label)
     shp = tuple(tuple(a.shape) for _, a in arrays)
@@ -313,6 +390,12 @@ def run_vti(ctx, pym, sc, spec, checks, labels, oracle_jobs):
     ctx.count(f'vti:exception:{type(err).__name__ if err else "none"}')
     for _, a in arrays:
         ctx.count(f'vti:ndim{a.ndim}')
+        if a.size * 4 > BIG:
+            ctx.count(f'vti:array of 2^{int(math.floor(math.log2(a.size)))}..2^{int(math.floor(math.log2(a.size))) + 1} entries')
+    if parsed is not None:
+        for a_ in parsed['arrays']:
+            if len(a_['raw']) > 12 + 87384:
+                ctx.count('vti:written array larger than 65536 bytes')
     oracle_jobs.append(('vti', spec, dom, vectors, obs_file, err, scale, origin, unit))
 
 
@@ -371,7 +454,7 @@ class Contents:
             if len(data) > 64 and len(set(data)) == 1:
                 lit = f'(repeat {data[0]} (Z.to_nat {len(data)}))'
             else:
-                lit = sl(data)
+                lit = bl(data)
             self.vars[data] = name
             self.defs.append(f'let {name} : str := {lit} in')
         return self.vars[data]
@@ -387,7 +470,10 @@ def world_of(spec, module_keys):
     """(pre, modules, events) of a history spec.  Old format (one module, fresh directory, `iterations`) is the history
     [new 0; call 0 ..]; the new format has spec['world'] = dict(modules=[..], events=[..]) and optionally spec['pre'] =
     dict(files=[[path, content]], dirs=[path]).  Events: ['new', module index] (instances are numbered in order of
-    creation), ['call', instance, values], ['write', path, content], ['remove', path]."""
+    creation), ['call', instance, values], ['write', path, content], ['remove', path], ['reset', instance, how] and
+    ['sens', instance, how] with how = 'module' (the instance's own reset() / sensitivity()) or 'network' (reset() /
+    sensitivity() of the Network that contains the instance).  A module with via='network' is called through the
+    response() of that Network."""
     pre = spec.get('pre', {})
     if 'world' in spec:
         return pre, spec['world']['modules'], spec['world']['events']
@@ -416,7 +502,33 @@ def env_event(ev):
         os.remove(ev[1])
 
 
-def run_world(wd, pre, events, new_instance, call_instance):
+def network_of(pym, inst):
+    """the Network around a module instance (made on first use; a Network only holds references to its modules)"""
+    if 'net' not in inst:
+        inst['net'] = pym.Network(inst['module'])
+    return inst['net']
+
+
+def respond(pym, inst, via):
+    if via == 'network':
+        network_of(pym, inst).response()
+    else:
+        inst['module'].response()
+
+
+def quiet_event(pym, inst, ev):
+    """reset() / sensitivity(): they concern the sensitivities of the signals only"""
+    target = network_of(pym, inst) if ev[2] == 'network' else inst['module']
+    if ev[0] == 'reset':
+        target.reset()
+    else:
+        target.sensitivity()
+
+
+QUIET = ('reset', 'sens')
+
+
+def run_world(wd, pre, events, new_instance, call_instance, pym=None):
     """executes a history in the scratch directory `wd`.  Returns the files before, the files after every event (after
     the failing one too), the exception, and per event what happened."""
     setup_pre(pre)
@@ -431,6 +543,8 @@ def run_world(wd, pre, events, new_instance, call_instance):
                     insts.append(new_instance(ev[1]))
                 elif ev[0] == 'call':
                     call_instance(insts[ev[1]], ev[2])
+                elif ev[0] in QUIET:
+                    quiet_event(pym, insts[ev[1]], ev)
                 else:
                     env_event(ev)
             except Exception as e:  # noqa
@@ -492,9 +606,9 @@ def run_wvti(ctx, pym, sc, spec, checks, labels, oracle_jobs):
         for s_, a in zip(inst['sigs'], arrs):
             s_.state = a
         inst['calls'].append(arrs)
-        inst['module'].response()
+        respond(pym, inst, mods[inst['mi']].get('via'))
 
-    before, snaps, err, done, insts = run_world(wd, pre, events, new_instance, call_instance)
+    before, snaps, err, done, insts = run_world(wd, pre, events, new_instance, call_instance, pym)
     code = exn_code(err)
     ct = Contents()
     insts_mi = [ev[1] for ev in events if ev[0] == 'new']
@@ -512,6 +626,8 @@ def run_wvti(ctx, pym, sc, spec, checks, labels, oracle_jobs):
             evs.append(f'VCall {ev[1]} [' + '; '.join(vec_lit(t, a) for t, a in zip(m['tags'], arrs)) + ']')
         elif ev[0] == 'write':
             evs.append(f'VWrite {sl(ev[1])} {ct.var(content_bytes(ev[2]))}')
+        elif ev[0] in QUIET:
+            evs.append(f'{"VReset" if ev[0] == "reset" else "VSens"} {ev[1]}')
         else:
             evs.append(f'VRemove {sl(ev[1])}')
     # an exception inside write_to_vti leaves a partial file behind: the files after a failing event are not compared
@@ -520,7 +636,8 @@ def run_wvti(ctx, pym, sc, spec, checks, labels, oracle_jobs):
     expr = ct.wrap(expr)
     checks.append(expr)
     labels.append(dict(kind='wvti', spec=spec, parts=['files after every event'], sub=[expr],
-                       observed_files=sorted(snaps[-1]) if snaps else []))
+                       observed_files=sorted(snaps[-1]) if snaps else [],
+                       cost=sum(int(np.prod(v['shape'])) * 4 for e in events if e[0] == 'call' for v in e[2] if int(np.prod(v['shape'])) * 4 > BIG)))
     targets = set()
     for m in mods:
         for it in range(8):
@@ -544,6 +661,12 @@ def run_wvti(ctx, pym, sc, spec, checks, labels, oracle_jobs):
     for e in events:
         if e[0] in ('write', 'remove'):
             ctx.count(f'wvti:environment:{e[0]}')
+        elif e[0] in QUIET:
+            ctx.count(f'wvti:{e[0]}:{e[2]}')
+    for m in mods:
+        ctx.count(f'wvti:response-through:{m.get("via", "module")}')
+    if any(int(np.prod(v['shape'])) * 4 > 65536 for e in events if e[0] == 'call' for v in e[2]):
+        ctx.count('wvti:array larger than 65536 bytes')
     ctx.count(f'wvti:exception:{type(err).__name__ if err else "none"}')
     oracle_jobs.append(('wvti', spec, mods, doms, before, snaps, err, done, insts))
 
@@ -621,9 +744,9 @@ def run_log(ctx, pym, sc, spec, checks, labels, oracle_jobs):
         objs = [build_logval(v) for v in values]
         for s_, o in zip(inst['sigs'], objs):
             s_.state = o
-        inst['module'].response()
+        respond(pym, inst, mods[inst['mi']].get('via'))
 
-    before, snaps, err, done, insts = run_world(wd, pre, events, new_instance, call_instance)
+    before, snaps, err, done, insts = run_world(wd, pre, events, new_instance, call_instance, pym)
     code = exn_code(err)
     nsucc = len(done)
     ct = Contents()
@@ -641,6 +764,8 @@ def run_log(ctx, pym, sc, spec, checks, labels, oracle_jobs):
             evs.append(f'LCall {ev[1]} [' + '; '.join(f'({sl(t)}, {logval_lit(o, m.get("fmt", ".10e"))})' for t, o in zip(m['tags'], objs)) + ']')
         elif ev[0] == 'write':
             evs.append(f'LWrite {sl(ev[1])} {ct.var(content_bytes(ev[2]))}')
+        elif ev[0] in QUIET:
+            evs.append(f'{"LReset" if ev[0] == "reset" else "LSens"} {ev[1]}')
         else:
             evs.append(f'LRemove {sl(ev[1])}')
     parts = {}
@@ -703,11 +828,19 @@ def run_log(ctx, pym, sc, spec, checks, labels, oracle_jobs):
     for e in events:
         if e[0] in ('write', 'remove'):
             ctx.count(f'log:environment:{e[0]}')
+        elif e[0] in QUIET:
+            ctx.count(f'log:{e[0]}:{e[2]}')
+    for m in mods:
+        ctx.count(f'log:response-through:{m.get("via", "module")}')
     ctx.count(f'log:exception:{type(err).__name__ if err else "none"}')
     k_ = 'float.__format__ / np.floating.__format__ (entries formatted by the harness, outside pymoto)'
     ctx.oracle_validation[k_] = ctx.oracle_validation.get(k_, 0) + sum(
         (o.size if isinstance(o, np.ndarray) else 1) for objs in objs_of.values() for o in objs)
-    oracle_jobs.append(('log', spec, jobs, err))
+    # reset() / sensitivity() must leave every file as it is
+    quiet = [(i, sorted(n_ for n_ in set(snaps[i]) | set(snaps[i - 1] if i else before)
+                        if snaps[i].get(n_) != (snaps[i - 1] if i else before).get(n_)))
+             for i, ev in enumerate(done) if ev[0] in QUIET]
+    oracle_jobs.append(('log', spec, jobs, err, quiet))
 
 
 # ----------------------------------------------------------------------------- generators
@@ -1012,6 +1145,33 @@ def log_stress(rng):
     out.append(dict(kind='log', tag='stress:environment:removed-then-new-instance',
                     pre=dict(files=[['log.txt', cont['long']]]),
                     world=dict(modules=[mod], events=[['new', 0]] + calls(0, 1) + [['remove', 'log.txt'], ['new', 0]] + calls(1, 2))))
+    # reset() / sensitivity() between the responses (the loop of every optimiser / finite-difference check): they clear or
+    # propagate sensitivities; the file keeps its header, its rows and the running iteration number
+    def loop(k, n, how, pr=protos, sens=True):
+        ev = []
+        for _ in range(n):
+            ev += calls(k, 1, pr) + ([['sens', k, how]] if sens else []) + [['reset', k, how]]
+        return ev
+    for how in ('module', 'network'):
+        for via in ('module', 'network'):
+            out.append(dict(kind='log', tag=f'stress:reset:loop:{how}:response-through-{via}', pre=dict(files=[['log.txt', cont['same-longer']]]),
+                            world=dict(modules=[dict(mod, via=via)], events=[['new', 0]] + loop(0, 4, how))))
+    out.append(dict(kind='log', tag='stress:reset:before-first-and-repeated',
+                    world=dict(modules=[mod], events=[['new', 0], ['reset', 0, 'module'], ['sens', 0, 'network'], ['reset', 0, 'network']]
+                               + calls(0, 2) + [['reset', 0, 'module'], ['reset', 0, 'module'], ['reset', 0, 'network']] + calls(0, 1)
+                               + [['sens', 0, 'module']] + calls(0, 2) + [['reset', 0, 'network']])))
+    out.append(dict(kind='log', tag='stress:reset:two-instances:other-one-reset',
+                    world=dict(modules=[dict(mod, saveto='a/log.txt'), dict(modb, saveto='b/log.csv')],
+                               events=[['new', 0], ['new', 1]] + calls(0, 2) + calls(1, 1, protos_b) + [['reset', 1, 'network']] + calls(0, 1)
+                               + [['reset', 0, 'module']] + calls(1, 2, protos_b) + [['sens', 0, 'network'], ['reset', 0, 'network']]
+                               + calls(0, 1) + calls(1, 1, protos_b))))
+    out.append(dict(kind='log', tag='stress:reset:same-path-two-instances',
+                    world=dict(modules=[mod, modb], events=[['new', 0]] + loop(0, 2, 'network') + [['new', 1]] + loop(1, 2, 'module', protos_b)
+                               + [['reset', 0, 'network']] + calls(0, 1))))
+    out.append(dict(kind='log', tag='stress:reset:environment-removes-file-then-reset',
+                    world=dict(modules=[mod], events=[['new', 0]] + calls(0, 2) + [['remove', 'log.txt'], ['reset', 0, 'network']] + calls(0, 2))))
+    out.append(dict(kind='log', tag='stress:reset:csv-no-signals',
+                    world=dict(modules=[dict(tags=[], saveto='out/it.csv', via='network')], events=[['new', 0]] + loop(0, 3, 'network', []))))
     # an exception in the middle leaves the files as they were
     bad = dict(type='array', shape=[0], values=[])
     out.append(dict(kind='log', tag='stress:exception-mid-history', pre=dict(files=[['log.txt', cont['same-longer']]]),
@@ -1023,9 +1183,25 @@ def log_stress(rng):
     return out
 
 
+def quiet_events(rng, k):
+    """what an optimiser does between two responses, for instance k or an earlier one (drawn)"""
+    r = rng.random()
+    if r < 0.45:
+        return []
+    who = k if rng.random() < 0.7 else rng.randrange(0, k + 1)
+    how = rng.choice(['module', 'network'])
+    if r < 0.75:
+        return [['sens', who, how], ['reset', who, how]]
+    if r < 0.9:
+        return [['reset', who, how]]
+    return [['reset', who, how], ['sens', who, rng.choice(['module', 'network'])], ['reset', who, how]]
+
+
 def widen_log(rng, spec):
     """random widening of a one-module history over the file system: previous content, a second instance, the environment"""
     mod = {k: spec[k] for k in LOG_KEYS if k in spec}
+    if rng.random() < 0.4:
+        mod['via'] = 'network'
     its = spec['iterations']
     fmt, sep = mod.get('fmt', '.10e'), mod.get('separator', '\t')
     cont = log_pre_contents(rng, mod['tags'], fmt if fmt else 'g', sep)
@@ -1058,6 +1234,7 @@ def widen_log(rng, spec):
             else:
                 events.append(['write', mod['saveto'], cont[rng.choice(sorted(cont))]])
         events.append(['call', k, it])
+        events += quiet_events(rng, k)
     return dict(kind='log', pre=pre, world=dict(modules=mods, events=events), tag='widened')
 
 
@@ -1141,12 +1318,103 @@ def wvti_stress(rng):
                     world=dict(modules=[dict(small, overwrite=True)], events=[['new', 0]] + calls(0, 1, small, ks)
                                + [['write', 'dat.vti', old_vti_text('long')]] + calls(0, 1, small, ks) + [['remove', 'dat.vti']]
                                + calls(0, 1, small, ks))))
+    # reset() / sensitivity() between the responses: the numbering goes on, earlier files stay
+    def loop(k, n, m, kinds, how):
+        ev = []
+        for _ in range(n):
+            ev += calls(k, 1, m, kinds) + [['sens', k, how], ['reset', k, how]]
+        return ev
+    for ow in (False, True):
+        for how, via in (('module', 'module'), ('network', 'network'), ('network', 'module'), ('module', 'network')):
+            out.append(dict(kind='wvti', tag=f'stress:reset:loop:{how}:response-through-{via}:overwrite{int(ow)}',
+                            pre=dict(files=[['dat.0000.vti', old_vti_text('long')], ['dat.vti', old_vti_text('garbage')]]),
+                            world=dict(modules=[dict(small, overwrite=ow, via=via)], events=[['new', 0]] + loop(0, 3, small, ks, how))))
+    out.append(dict(kind='wvti', tag='stress:reset:before-first-and-repeated',
+                    world=dict(modules=[big], events=[['new', 0], ['reset', 0, 'network'], ['sens', 0, 'module']] + calls(0, 1, big, kb)
+                               + [['reset', 0, 'module'], ['reset', 0, 'module'], ['reset', 0, 'network']] + calls(0, 2, big, kb)
+                               + [['reset', 0, 'network']] + calls(0, 1, big, kb))))
+    out.append(dict(kind='wvti', tag='stress:reset:two-instances:other-one-reset',
+                    world=dict(modules=[big, small], events=[['new', 0], ['new', 1]] + calls(0, 1, big, kb) + calls(1, 2, small, ks)
+                               + [['reset', 1, 'network']] + calls(0, 1, big, kb) + [['reset', 0, 'module'], ['sens', 1, 'network']]
+                               + calls(1, 1, small, ks) + calls(0, 1, big, kb))))
+    out.append(dict(kind='wvti', tag='stress:reset:nothing-to-write-then-reset',
+                    world=dict(modules=[small], events=[['new', 0]] + calls(0, 1, small, ['skip']) + [['reset', 0, 'network']]
+                               + calls(0, 1, small, ks) + [['reset', 0, 'module']] + calls(0, 1, small, ks))))
+    return out
+
+
+def big_values(rng, n, period=13):
+    """compact form of a LARGE array (expand_values): `period` drawn values repeated, and single entries replaced by
+    other values at the first / last index and around every multiple of 2^12 .. 2^16 entries and of 65536 / 49152 BYTES,
+    so that neither the input nor the base64 text is simply periodic across those positions"""
+    pat = rand_values(rng, period, rng.choice(['float', 'float', 'dyadic', 'wide']))
+    marks = {0: 1.5, n - 1: -7.0}
+    for k in range(12, 17):
+        for m in range(1, n // (1 << k) + 1):
+            for d in (-1, 0, 1):
+                i = m * (1 << k) + d
+                if 0 <= i < n:
+                    marks[i] = float(rng.randint(-1000, 1000)) + 0.5 * d
+    for i in (12288, 12287, 5461, 5462, 16383 * 3, n // 2):
+        if 0 <= i < n:
+            marks[i] = rng.gauss(0.0, 1.0)
+    return dict(pattern=pat, n=n, marks=[[i, marks[i]] for i in sorted(marks)])
+
+
+def big_stress(rng, quick):
+    """LARGE arrays, on every seed: more than 65536 bytes per written array (element fields of > 16384 entries, padded
+    nodal vector fields on > 5461 nodes, 3-D nodal vector fields, blocks of such vectors), and arrays of 2^k - 1, 2^k,
+    2^k + 1 float32 values for k = 12 .. 16 (all three base64 paddings at every boundary).  Values are periodic with
+    single entries replaced, which lets the harness hand ALL bytes of the inputs and of the files to Coq in run-length form:
+    model file == written file byte for byte, every block decoded by the Coq decoder.  Unstructured values of the same
+    sizes go to the oracle only (oracle_only: python's decoder)."""
+    out = []
+
+    def vec(name, shape, **kw):
+        return dict(name=name, shape=list(shape), values=big_values(rng, int(np.prod(shape))), **kw)
+    # (domain, vectors): nel, nnodes not multiples of each other, sizes determine kind and components
+    out.append(dict(kind='vti', tag='stress:large:element-field-130x130', domain=[130, 130, 0], vectors=[vec('x', [16900])]))
+    out.append(dict(kind='vti', tag='stress:large:element-field-129x128', domain=[129, 128, 0], vectors=[vec('rho', [16512], dtype='f4')],
+                    scale=0.5, filename='sub/large.vti'))
+    out.append(dict(kind='vti', tag='stress:large:exactly-65536-bytes-128x128', domain=[128, 128, 0], vectors=[vec('x', [16384])]))
+    out.append(dict(kind='vti', tag='stress:large:padded-nodal-vectors-74x74', domain=[74, 74, 0],
+                    vectors=[vec('u', [11250]), vec('x', [5476])], origin=[1.0, -2.5, 0.0]))
+    out.append(dict(kind='vti', tag='stress:large:padded-nodal-block-120x60', domain=[120, 60, 0],
+                    vectors=[vec('modes', [2, 14762], layout='F')]))
+    out.append(dict(kind='vti', tag='stress:large:nodal-vectors-3d-18x17x17', domain=[18, 17, 17], vectors=[vec('u', [18468]), vec('T', [6156])]))
+    out.append(dict(kind='vti', tag='stress:large:element-tensor-field-3d-20x17x17', domain=[20, 17, 17], vectors=[vec('s', [6 * 5780], layout='strided')]))
+    ks = range(12, 17) if quick else range(10, 18)
+    for k in ks:
+        for d in (-1, 0, 1):
+            n = (1 << k) + d
+            out.append(dict(kind='vti', tag=f'stress:large:2^{k}{d:+d}-floats', domain=[n, 1, 0], vectors=[vec('x', [n])], filename='b.vti'))
+    # point data with 2^k +- 1 floats: n nodes on an (n/2 - 1) x 1 grid exist for even n only; three components, 3 * nnodes floats
+    for k in (13, 15):
+        nn = (1 << k)
+        out.append(dict(kind='vti', tag=f'stress:large:3x2^{k}-point-floats', domain=[nn // 2 - 1, 1, 0], vectors=[vec('u', [3 * nn])], filename='b.vti'))
+    # unstructured values, oracle only
+    for dom3, shp in (([160, 120, 0], [19200]), ([160, 120, 0], [2 * 161 * 121]), ([131, 129, 0], [16899]), ([30, 20, 15], [3 * 31 * 21 * 16])):
+        n = int(np.prod(shp))
+        out.append(dict(kind='vti', tag='stress:large:unstructured-values', domain=dom3, oracle_only=True,
+                        vectors=[dict(name='w', shape=shp, values=dict(pattern=rand_values(rng, n, 'float'), n=n))]))
+    # WriteToVTI histories with large arrays, reset() in between
+    big = dict(domain=[130, 130, 0], tags=['x'], saveto='out/big.vti', via='network')
+    it = lambda: [vec('x', [16900])]   # noqa
+    out.append(dict(kind='wvti', tag='stress:large:history-numbered', pre=dict(files=[['out/big.0001.vti', old_vti_text('long')]]),
+                    world=dict(modules=[big], events=[['new', 0], ['call', 0, it()], ['sens', 0, 'network'], ['reset', 0, 'network'],
+                                                      ['call', 0, it()], ['reset', 0, 'module']])))
+    pb = dict(domain=[74, 74, 0], tags=['u'], saveto='big2.vti', overwrite=True)
+    out.append(dict(kind='wvti', tag='stress:large:history-overwrite-padded',
+                    world=dict(modules=[pb], events=[['new', 0], ['call', 0, [vec('u', [11250])]], ['reset', 0, 'module'],
+                                                      ['call', 0, [vec('u', [11250])]]])))
     return out
 
 
 def widen_wvti(rng, spec):
     """random widening of a one-module WriteToVTI history over the file system"""
     mod = {k: spec[k] for k in WVTI_KEYS if k in spec}
+    if rng.random() < 0.4:
+        mod['via'] = 'network'
     its = spec['iterations']
     pre = dict(files=[], dirs=[])
     kinds = ['garbage', 'empty', 'long', 'xml-tail', 'one-char']
@@ -1175,6 +1443,7 @@ def widen_wvti(rng, spec):
             else:
                 events.append(['write', wvti_target(mod, rng.randrange(0, 6)), old_vti_text(rng.choice(kinds))])
         events.append(['call', k, it])
+        events += quiet_events(rng, k)
     return dict(kind='wvti', pre=pre, world=dict(modules=mods, events=events), tag='widened')
 
 
@@ -1301,13 +1570,20 @@ def oracle(ctx, pym, jobs):
                             for pred, exp, got in oracle_vti_file(ctx, dom, vectors, snap[target], mod.get('scale', 1.0), None,
                                                                   mod.get('unit', [1.0] * 3), 'WriteToVTI', case):
                                 ctx.violation('impl-violates', 'WriteToVTI._response', pred, cls, c2, expected=exp, got=got)
+                elif ev[0] in QUIET and snap != prev:
+                    ctx.violation('impl-violates', 'WriteToVTI', 'reset() and sensitivity() leave every file alone', cls,
+                                  dict(case, event=ei), expected=[], got=sorted(n_ for n_ in set(snap) | set(prev) if snap.get(n_) != prev.get(n_)))
                 prev = snap
         else:
-            _, spec, jobs, err = job
+            _, spec, jobs, err, quiet = job
             case = dict(spec=spec)
             cls = spec.get('class', 'structured')
             if err is not None and not cls.startswith('malformed'):
                 ctx.violation('impl-violates', 'ScalarToFile._response', 'logs without raising', cls, case, got=repr(err)[:300])
+            for ei, changed in quiet:
+                if changed:
+                    ctx.violation('impl-violates', 'ScalarToFile', 'reset() and sensitivity() leave every file alone', cls,
+                                  dict(case, event=ei), expected=[], got=changed)
             for k, m, calls, data, fmt, sep in jobs:
                 # instance k from its first call on, nobody else touched its file: header + one row per call, whatever
                 # the file held before
@@ -1434,7 +1710,7 @@ def run(ctx):
             specs.append(gen_vti_spec(rng, quick, doms))
         for _ in range(n_mal):
             specs.append(gen_vti_malformed(rng, doms))
-        stress = wvti_stress(rng) + log_stress(rng)
+        stress = big_stress(rng, quick) + wvti_stress(rng) + log_stress(rng)
         ctx.count('stress histories (every seed)', len(stress))
         specs += stress
         for i in range(n_wvti):
@@ -1459,8 +1735,8 @@ def run(ctx):
     shards, start = [], 0
     while start < len(checks):
         size, end = 0, start
-        while end < len(checks) and (end == start or size + len(checks[end]) < 260000) and end - start < 60:
-            size += len(checks[end])
+        while end < len(checks) and (end == start or size + len(checks[end]) + labels[end].get('cost', 0) < 260000) and end - start < 60:
+            size += len(checks[end]) + labels[end].get('cost', 0)     # cost: bytes that are expanded from run-length form inside Coq
             end += 1
         shards.append((start, end))
         start = end
